@@ -19,7 +19,7 @@ import time
 
 import z3
 
-from .runner import VERIF, REPO, WORK, sh, load_known
+from .runner import VERIF, REPO, WORK, sh, load_known, copy_lock
 
 FEATURES = ['Debug', 'Clone', 'Copy', 'PartialEq', 'Eq', 'PartialOrd', 'Ord', 'Hash', 'Default', 'Deref', 'DerefMut', 'Into']
 FV = {f: z3.Bool('feature_' + f) for f in FEATURES}
@@ -288,8 +288,8 @@ def replay(subset, deny_warnings=True, tag='r'):
     tmp = tempfile.mkdtemp(prefix='educe_c18_')
     try:
         shutil.copytree(os.path.join(REPO, 'src'), os.path.join(tmp, 'src'))
-        for fn in ('Cargo.toml', 'Cargo.lock'):
-            shutil.copy(os.path.join(REPO, fn), os.path.join(tmp, fn))
+        shutil.copy(os.path.join(REPO, 'Cargo.toml'), os.path.join(tmp, 'Cargo.toml'))
+        copy_lock(tmp)
         cmd = ['cargo', 'check', '--offline', '--no-default-features', '--target-dir', os.path.join(WORK, 'target-e3')]
         if subset:
             cmd += ['--features', ' '.join(subset)]
@@ -416,7 +416,7 @@ def replay_trait_name(subset, ql):
         os.makedirs(os.path.join(tmp, 'src'))
         feats = ', '.join(f'"{f}"' for f in subset)
         open(os.path.join(tmp, 'Cargo.toml'), 'w').write(f'[package]\nname = "nm"\nversion = "0.0.0"\nedition = "2021"\n[dependencies]\neduce = {{ path = "{REPO}", default-features = false, features = [{feats}] }}\n[workspace]\n')
-        shutil.copy(os.path.join(REPO, 'Cargo.lock'), os.path.join(tmp, 'Cargo.lock'))
+        copy_lock(tmp)
         body = {'Deref': 'struct S(u8);', 'DerefMut': 'struct S(u8);', 'Into': 'struct S(u8);'}.get(t, 'struct S(u8);')
         attr = {'Into': 'Into(u8)', 'Debug': 'Debug', 'Copy': 'Copy'}.get(t, t)
         open(os.path.join(tmp, 'src', 'lib.rs'), 'w').write(f'#![allow(dead_code)]\nuse educe::Educe;\n#[derive(Educe)]\n#[educe({attr})]\n{body}\n')
